@@ -117,8 +117,9 @@ pub fn opposite_bracket(b: char) -> char { unimplemented!() }
 pub uninterp spec fn spec_is_hexdigit(c: char) -> bool;
 pub assume_specification[ char::is_ascii_hexdigit ](c: &char) -> (r: bool)
     ensures r == spec_is_hexdigit(*c);
+pub open spec fn spec_is_digit(c: char) -> bool { '0' <= c && c <= '9' }
 pub assume_specification[ char::is_ascii_digit ](c: &char) -> (r: bool)
-    ensures r == ('0' <= *c && *c <= '9');
+    ensures r == spec_is_digit(*c);
 pub assume_specification[ char::is_ascii_whitespace ](c: &char) -> (r: bool);
 pub assume_specification[ char::is_alphabetic ](c: char) -> (r: bool);
 pub assume_specification[ char::to_ascii_lowercase ](c: &char) -> (r: char);
